@@ -24,8 +24,9 @@ ASSUMPTIONS = [
     "single-threaded TF (bit-reproducible reductions)",
     "outputs and `scale` are compared exactly (np.array_equal, NaN==NaN, "
     "-0.0==0.0); no tolerance",
-    "stochastic paths: tf.random.set_seed(case seed) is re-armed before every "
-    "call on both sides, so equal configurations draw equal random numbers",
+    "stochastic paths: tf.random.set_seed(case seed) is re-armed before the "
+    "call sequence (probes x learning phases, fixed order) of every quantizer "
+    "object, so equal configurations draw equal random numbers",
     "a call of the ORIGINAL quantizer that raises is not a C09 failure (the "
     "rebuilt one must then raise the same exception type)",
     "option values come from the admissible table in vf/gen/qoptions.py "
